@@ -63,6 +63,8 @@ def c06(chk, thorough):
     threads.t4(chk, prog, exempt_entries=sliced)
     chk.floor('T4.argument-privacy', 8)
     threads.t6(chk, prog)
+    threads.t7(chk, prog)
+    chk.floor('T7.batch-divides', 2)
     chk.floor('T6.fresh-accumulators', 8)
     if thorough:
         from . import irscan
@@ -95,6 +97,8 @@ def c18(chk, thorough):
     from . import degenerate
     degenerate.run(chk, prog, {'pls.c', 'pca.c', 'cpca.c', 'upca.c', 'upls.c', 'preprocessing.c', 'epls.c', 'lda.c', 'mlr.c'})
     chk.floor('DG.mean-of-centred', 1)
+    degenerate.null_components(chk, prog)
+    chk.floor('DG.null-component', 3)
     if n < 400:
         chk.broke('only %d loops reachable from the C18 roots, floor 400' % n)
     if chk.extra.get('reachable_functions', 0) < 120:
@@ -219,6 +223,10 @@ def c08(chk, thorough):
     chk.floor('DF.per-index', 3)
     offsets.sibling_label_arms(chk, prog, ['LDA', 'LDAPrediction', 'LDAError', 'LDAMulticlassStatistics'])
     chk.floor('OF.sibling-arms', 1)
+    # the inverse of the pooled covariance (affine-invariance clause) is built from products that only ADD into their output
+    from . import accum
+    accum.run(chk, prog, {'matrix.c', 'vector.c'}, {'lda.c', 'matrix.c'})
+    chk.floor('ACC.zeroed', 10)
     chk.floor('OF.argmax', 1)
     chk.floor('OF.compare', 6)
     chk.floor('OF.label-sink', 1)
@@ -287,6 +295,7 @@ def c15(chk, thorough):
                              what='ROC / precision-recall constructions (scores are compared exactly: the curves depend on their order only)', rule='RC.tolerance')
     chk.floor('RC.tolerance', 4)
     chk.floor('RF.definition', 5)
+    chk.floor('RF.centred', 5)
     chk.floor('RF.guard', 15)
     layout.run(chk, prog, {'pls.c': ['PLSRegressionStatistics', 'PLSDiscriminantAnalysisStatistics']})
     chk.floor('G.missing', 4)
@@ -421,6 +430,10 @@ def c12(chk, thorough):
     matexpr.run(chk, prog)
     chk.floor('MX.definition', 3)
     chk.floor('MX.symmetric-arg', 1)
+    guards.kernel_tolerances(chk, prog, contractmode.C12_FUNCS, table=guards.SOLVER_TOLERANCE_TABLE, rule='SV.tolerance',
+                             what='inverses / solvers / factorisations (entries of X\'X and pivots scale with the square of the data)')
+    chk.floor('SV.tolerance', 6)
+    guards.secondary_inductions(chk, prog, contractmode.C12_FUNCS)
     chk.floor('K.bounds', 100)
     chk.floor('G.pivot', 2)
 
@@ -470,8 +483,59 @@ def c07(chk, thorough):
     mlrcheck.run(chk, prog)
     matexpr.run(chk, prog)
     accum.run(chk, prog, {'matrix.c', 'vector.c', 'algebra.c'}, {'mlr.c', 'algebra.c'})
+    from . import guards
+    guards.kernel_tolerances(chk, prog, {'matrix.c': ['MatrixInversion', 'MatrixTranspose', 'MatrixDotProduct', 'MatrixDVectorDotProduct'],
+                                         'algebra.c': ['OrdinaryLeastSquares'], 'mlr.c': ['MLR', 'MLRPredictY']},
+                             table={}, rule='SV.tolerance', what='routines the MLR fit is composed of (no absolute tolerance on X\'X or its inverse)')
     for r_, fl in (('MLR.design', 2), ('MLR.per-response', 1), ('MLR.predict', 2), ('MLR.residual', 1), ('MLR.r2-sdec', 3), ('MX.definition', 3),
                    ('ACC.zeroed', 3)):
+        chk.floor(r_, fl)
+
+
+def c01(chk, thorough):
+    from . import pcacheck
+    chk.explanation = (
+        'Decides the exact-arithmetic mechanism behind C01 with the free vector algebra of E18 (vectors as combinations of base vectors, scalars as '
+        'rational functions of inner products and norms, matrices as base + rank-one terms, a normalised combination becomes a new unit base vector; '
+        'nothing executed). (PCA.component) on every path that leaves the NIPALS iteration the loading kept has p\'p = 1, the score kept is t = E p for '
+        'that very p, both are stored whole in column pc, E is deflated by exactly t p\' and eval[pc] is the squared norm of a score iterate -- so the '
+        'residual satisfies E_new p = 0, later loadings (formed in the row space of E_new) are orthogonal to p, X = T P\' + E by construction and the '
+        'explained variances are non-negative. (PCA.reset) nothing of an earlier loading leaks into the next one through the accumulating product. '
+        '(PCA.variance) ss is the sum of squares of every preprocessed cell before any deflation and varexp = eval/ss*100. (PCA.blocks) fit and '
+        'projection use the same stored centring/scaling. (PCA.score-predictor) projection walks through the same deflations as the fit. '
+        '(PCA.back-transform) PCAIndVarPredictor is (sum t p\') * scale + mean, scaling before shift, on every branch. NOT decided: the same statements '
+        'in floating point (orthogonality to 1e-x, the 100 % sum, which depends on the convergence tolerance because eval is taken from the '
+        'last-but-one score), the order of the explained variances, convergence (C18), spectral correctness (C02).')
+    chk.assumptions = ['real arithmetic; norms positive (the null component is C18)',
+                       'the kernel table: MT_DVectorMatrixDotProduct adds E\'t, MT_MatrixDVectorDotProduct adds E p, DVectNorm divides by the norm (cell forms decided under C11, thread partition under C13)']
+    prog = load_program(chk, ['pca.c', 'matrix.c', 'vector.c', 'algebra.c'])
+    pcacheck.run(chk, prog)
+    for r_, fl in (('PCA.component', 1), ('PCA.reset', 1), ('PCA.variance', 2), ('PCA.blocks', 2), ('PCA.score-predictor', 1), ('PCA.back-transform', 3)):
+        chk.floor(r_, fl)
+
+
+def c04(chk, thorough):
+    from . import plscheck, accum
+    chk.explanation = (
+        'Decides the exact-arithmetic mechanism behind C04 (engine E18: a free algebra of vectors sum c_k B_k, scalars as rational functions of inner '
+        'products and norms, matrices X0 + sum c A B\'; equality by cross-multiplication; nothing executed). (PLS.iteration) when the NIPALS iteration '
+        'stops, on every path that leaves it, t = X w for the very w that is kept, q is proportional to Y\'t and u = Y q/q\'q (several responses) or q = 1 '
+        'and u untouched (one response). (PLS.latent-variable) what LVCalc hands back is p = unit(X\'t/t\'t), t and w rescaled by |X\'t/t\'t|, '
+        'b = u\'t/t\'t for the final t, X - t p\' and Y - b t q\' with exactly those vectors. (PLS.store) PLS() puts each of them in the model field of '
+        'its role, whole, in column lv, and appends b. (PLS.blocks) X and Y are centred/scaled into the model statistics the predictors read back. '
+        '(PLS.predictor) PLSYPredictor is (sum_{lv<nlv} b t q\') * yscale + ymean, scaling before shift, per response column. (PLS.score-predictor) '
+        'unseen objects are projected with the stored weights and deflated with the stored loadings, the accumulating kernel fed a zeroed score. '
+        '(PLS.all-lv) block lv of PLSYPredictorAllLV is the prediction with lv+1 latent variables. (MX.definition) PLSBetasCoeff is W (P\'W)^-1 b over '
+        'the first nlv latent variables. From these, in exact arithmetic: scores are mutually orthogonal (deflation with p = X\'t/t\'t), each b t q\' is the '
+        'least-squares fit of the current Y residual on t (so the training RSS cannot increase and at full rank the fit is the OLS fit), T = X W(P\'W)^-1 '
+        '(so the coefficient form predicts what the scores predict) and the back-transform is affine in y. NOT decided: those consequences as '
+        'floating-point statements, convergence of the iteration, the R2 figures (C15).')
+    chk.assumptions = ['real arithmetic; norms and squared norms are positive (non-null latent variable; the null case is C18)',
+                       'the kernel table: DVectorMatrixDotProduct adds M\'v, MatrixDVectorDotProduct adds M v, DVectNorm divides by the norm (their cell forms are decided under C11)']
+    prog = load_program(chk, ['pls.c', 'matrix.c', 'vector.c', 'algebra.c'])
+    plscheck.run(chk, prog)
+    for r_, fl in (('PLS.iteration', 2), ('PLS.latent-variable', 8), ('PLS.store', 6), ('PLS.predictor', 3), ('PLS.score-predictor', 1), ('PLS.all-lv', 1),
+                   ('PLS.blocks', 2), ('MX.definition', 1)):
         chk.floor(r_, fl)
 
 
@@ -494,11 +558,14 @@ def c17(chk, thorough):
     chk.floor('KM.nearest', 4)
     chk.floor('KM.centroid-mean', 6)
     chk.floor('KM.converged', 4)
+    chk.floor('SEL.unselect', 4)
     chk.floor('S1-3.partition', 3)
     chk.floor('S7.row-accumulators', 3)
 
 
 CHECKS = {
+    'C01': c01,
+    'C04': c04,
     'C07': c07,
     'C17': c17,
     'C13': c13,
